@@ -490,7 +490,10 @@ def delStage (s : State) (r arg : String) (desc : Desc) : State :=
 theorem mDel_eq (s : State) (r arg : String) : mDel s r arg =
     match getDesc ((s.setRepo (s.repo r)).repo r).index arg with
     | none => (s.setRepo (s.repo r), { status := 404, code := "MANIFEST_UNKNOWN" })
-    | some desc => (indexRemove (delStage (s.setRepo (s.repo r)) r arg desc) r desc, { status := 202 }) := rfl
+    | some desc =>
+      if !isTag arg ∧ onlyResponse ((s.setRepo (s.repo r)).repo r).index desc.dig then
+        (s.setRepo (s.repo r), { status := 404, code := "MANIFEST_UNKNOWN" })
+      else (indexRemove (delStage (s.setRepo (s.repo r)) r arg desc) r desc, { status := 202 }) := rfl
 
 theorem delStage_tag (s : State) (r arg : String) (desc : Desc) (ht : isTag arg = true) : delStage s r arg desc = s := by
   unfold delStage; simp [ht]
@@ -587,37 +590,47 @@ theorem mem_rmFrom (old : List Desc) (g : String) (x : Desc) (h : x ∈ rmFrom o
 /-- deleting by digest a manifest that is not a response document: its entry leaves the response of the subject its
     body names (if that subject has a response), nothing else changes -/
 theorem mDel_dig_lists {s : State} (hK : RK T r s) (hN : Names T) (arg : String) (desc : Desc) (ht : isTag arg = false)
-    (hnil : desc.ann.isNil = true) (hfree : ∀ ds, desc.dig ≠ (respDig ds).str) :
+    (hnil : desc.ann.isNil = true)
+    (hfree : ∀ e ∈ (s.repo r).index.manifests, Sub e → e.dig ≠ desc.dig)
+    (hnew : subjRead s r desc.dig ≠ "" → ∀ ds, (∀ x ∈ ds, T x) → desc.dig ≠ (respDig ds).str) :
     RK T r (indexRemove (delStage s r arg desc) r desc) ∧ Mono r s (indexRemove (delStage s r arg desc) r desc) ∧
     ∀ S, S ≠ "" →
       (S ≠ subjRead s r desc.dig → respList (indexRemove (delStage s r arg desc) r desc) r S = respList s r S) ∧
       (S = subjRead s r desc.dig →
         respList (indexRemove (delStage s r arg desc) r desc) r S = rmFrom (respList s r S) desc.dig ∨
         (respList (indexRemove (delStage s r arg desc) r desc) r S = respList s r S ∧ respList s r S = [])) := by
-  have hrm : ∀ {s1 : State}, RK T r s1 →
-      SubSame (s1.repo r).index.manifests (rmDesc (s1.repo r).index desc).manifests := by
-    intro s1 hK1
-    apply rmDesc_dig_subSame _ desc hnil
-    intro e he hsub hed
-    obtain ⟨ds, hd, _, _⟩ := hK1.reg e he hsub
-    exact hfree ds (hed.symm.trans hd)
+  have hrm0 : SubSame (s.repo r).index.manifests (rmDesc (s.repo r).index desc).manifests :=
+    rmDesc_dig_subSame _ desc hnil hfree
   rw [delStage_dig s r arg desc hK.ref ht]
   by_cases hsb : subjRead s r desc.dig = ""
   · rw [if_pos hsb]
-    obtain ⟨h1, h2, h3⟩ := remove_keeps hK hN desc (hrm hK)
+    obtain ⟨h1, h2, h3⟩ := remove_keeps hK hN desc hrm0
     refine ⟨h1, h2, fun S hS => ⟨fun _ => h3 S hS, fun h => ?_⟩⟩
     rw [hsb] at h; exact absurd h hS
   · rw [if_neg hsb, referrerDelete_eq]
     by_cases hcur : currentResp s r (subjRead s r desc.dig) = none
     · rw [if_pos hcur]
-      obtain ⟨h1, h2, h3⟩ := remove_keeps hK hN desc (hrm hK)
+      obtain ⟨h1, h2, h3⟩ := remove_keeps hK hN desc hrm0
       refine ⟨h1, h2, fun S hS => ⟨fun _ => h3 S hS, fun h => Or.inr ⟨h3 S hS, ?_⟩⟩⟩
       rw [h]; unfold respList; rw [hcur]
     · rw [if_neg hcur]
       have hTl : ∀ x ∈ rmFrom (respList s r (subjRead s r desc.dig)) desc.dig, T x :=
         fun x hx => respList_tok hK.table r _ x (mem_rmFrom _ _ x hx)
       have hK1 := hK.storeResp hN _ hsb _ hTl
-      obtain ⟨h1, h2, h3⟩ := remove_keeps hK1 hN desc (hrm hK1)
+      -- the subject entries after the rewrite: the new response (another digest) and old ones
+      have hrm1 : SubSame ((storeResp s r (subjRead s r desc.dig) (rmFrom (respList s r (subjRead s r desc.dig)) desc.dig)).repo r).index.manifests
+          (rmDesc ((storeResp s r (subjRead s r desc.dig) (rmFrom (respList s r (subjRead s r desc.dig)) desc.dig)).repo r).index desc).manifests := by
+        apply rmDesc_dig_subSame _ desc hnil
+        rw [storeResp_index]
+        intro e he hsub hed
+        obtain ⟨_, hall, _⟩ := addDesc_subj (s.repo r).index
+          (respDesc (subjRead s r desc.dig) (rmFrom (respList s r (subjRead s r desc.dig)) desc.dig))
+          (rmFrom (respList s r (subjRead s r desc.dig)) desc.dig) (subjRead s r desc.dig) rfl rfl rfl hsb
+        rcases hall e he with h | ⟨h, _⟩
+        · exact hnew hsb (rmFrom (respList s r (subjRead s r desc.dig)) desc.dig) hTl
+            (hed.symm.trans (congrArg Desc.dig h))
+        · exact hfree e h hsub hed
+      obtain ⟨h1, h2, h3⟩ := remove_keeps hK1 hN desc hrm1
       refine ⟨h1, Mono.trans ⟨fun g hg => storeResp_blob_isSome s r _ _ g hg, (frame_storeResp s r _ _).2.2⟩ h2,
         fun S hS => ⟨fun hne => ?_, fun h => Or.inl ?_⟩⟩
       · rw [h3 S hS, respList_storeResp_other hK hN _ hsb _ hTl S hS hne]
@@ -696,7 +709,8 @@ theorem tg_mDel {s : State} (ht : TableOK T s) (r0 arg : String) :
   split
   · exact ⟨ht0, hg0⟩
   · rename_i desc _
-    simp only []
+    split
+    · exact ⟨ht0, hg0⟩
     have key : TableOK T (delStage s0 r0 arg desc) ∧ RespsGrow s0 (delStage s0 r0 arg desc) := by
       rcases delStage_cases s0 r0 arg desc with h | ⟨S, h⟩
       · rw [h]; exact ⟨ht0, fun _ _ h => h⟩
@@ -801,6 +815,7 @@ structure RJ (r : String) (s : State) (G : Spec) : Prop where
   nodup : ∀ S, S ≠ "" → ((respList s r S).map (·.dig)).Nodup
   sound : ∀ S, S ≠ "" → ∀ x ∈ respList s r S, subjRead s r x.dig = S
   spec : ∀ S, S ≠ "" → ∀ g, g ∈ (respList s r S).map (·.dig) ↔ G S g
+  nodef : ∀ ds, subjOf (s.body (respName ds)) = ""
 
 theorem body_of_defs {s s' : State} (h : s'.defs = s.defs) (c : String) : s'.body c = s.body c := by
   unfold State.body; rw [h]
@@ -831,10 +846,17 @@ theorem subjRead_stable {s s' : State} (hcas : RepoCAS (s.repo r)) (hcas' : Repo
 theorem RJ.same {s s' : State} {G : Spec} (hJ : RJ r s G) (hcas : RepoCAS (s.repo r)) (hcas' : RepoCAS (s'.repo r))
     (hblob : ∀ g, ((s.repo r).blob g).isSome → ((s'.repo r).blob g).isSome)
     (hbody : ∀ c, subjOf (s.body c) ≠ "" → s'.body c = s.body c)
-    (hl : ∀ S, S ≠ "" → respList s' r S = respList s r S) : RJ r s' G := by
-  refine ⟨fun S hS => by rw [hl S hS]; exact hJ.nodup S hS, fun S hS x hx => ?_, fun S hS g => by rw [hl S hS]; exact hJ.spec S hS g⟩
+    (hl : ∀ S, S ≠ "" → respList s' r S = respList s r S)
+    (hnd : ∀ ds, subjOf (s'.body (respName ds)) = "") : RJ r s' G := by
+  refine ⟨fun S hS => by rw [hl S hS]; exact hJ.nodup S hS, fun S hS x hx => ?_,
+    fun S hS g => by rw [hl S hS]; exact hJ.spec S hS g, hnd⟩
   rw [hl S hS] at hx
   exact subjRead_stable hcas hcas' hblob hbody _ S hS (hJ.sound S hS x hx)
+
+theorem RJ.same_defs {s s' : State} {G : Spec} (hJ : RJ r s G) (hcas : RepoCAS (s.repo r)) (hcas' : RepoCAS (s'.repo r))
+    (hblob : ∀ g, ((s.repo r).blob g).isSome → ((s'.repo r).blob g).isSome) (hdefs : s'.defs = s.defs)
+    (hl : ∀ S, S ≠ "" → respList s' r S = respList s r S) : RJ r s' G :=
+  hJ.same hcas hcas' hblob (fun c _ => body_of_defs hdefs c) hl (fun ds => by rw [body_of_defs hdefs]; exact hJ.nodef ds)
 
 /-- a step that leaves index, blobs and tables of `r` alone keeps everything -/
 theorem keep_all {s s' : State} {G : Spec} (hK : RK T r s) (hJ : RJ r s G) (hN : Names T) (hinv : Inv s')
@@ -843,7 +865,7 @@ theorem keep_all {s s' : State} {G : Spec} (hK : RK T r s) (hJ : RJ r s G) (hN :
     (hblob : ∀ g, ((s.repo r).blob g).isSome → ((s'.repo r).blob g).isSome)
     (htable : TableOK T s') (hgrow : RespsGrow s s') : RK T r s' ∧ RJ r s' G := by
   have hK' : RK T r s' := hK.transfer s' hinv hconf htable (by rw [hidx]; exact SubSame.refl _) hblob hgrow
-  refine ⟨hK', hJ.same hK.cas hK'.cas hblob (fun c _ => body_of_defs hdefs c) ?_⟩
+  refine ⟨hK', hJ.same_defs hK.cas hK'.cas hblob hdefs ?_⟩
   intro S hS
   exact respList_transfer hK hN s' S hS (fun e _ _ => by rw [hidx]) hblob hgrow hK'.cas
 
@@ -949,11 +971,12 @@ theorem mPut_r {s : State} {G : Spec} (hK : RK T r s) (hJ : RJ r s G) (hN : Name
     have hbody : ∀ c, subjOf (s0.body c) ≠ "" → s'.body c = s0.body c := fun c _ => body_of_defs hm.defs c
     by_cases hsub : a.subject = ""
     · rw [specStep_mPut_no r G r ref ct qd b lk _ (fun h => h.2.2 hsub)]
-      exact hJ0.same hK0.cas hK'.cas hm.blob hbody (hl0 hsub)
+      exact hJ0.same_defs hK0.cas hK'.cas hm.blob hm.defs (hl0 hsub)
     · rw [specStep_mPut_yes r G ref ct qd b lk _ rfl hsub]
       simp only []
       obtain ⟨hself, hother⟩ := hl1 hsub
-      refine ⟨fun S hS => ?_, fun S hS x hx => ?_, fun S hS g => ?_⟩
+      refine ⟨fun S hS => ?_, fun S hS x hx => ?_, fun S hS g => ?_,
+        fun ds => by rw [body_of_defs hm.defs]; exact hJ0.nodef ds⟩
       · by_cases hSS : S = a.subject
         · rw [hSS, hself]; exact addTo_nodup _ _ (hJ0.nodup _ hsub)
         · rw [hother S hS hSS]; exact hJ0.nodup S hS
@@ -982,35 +1005,89 @@ theorem mPut_r {s : State} {G : Spec} (hK : RK T r s) (hJ : RJ r s G) (hN : Name
 theorem mDel_none (s : State) (r arg : String) (h : getDesc ((s.setRepo (s.repo r)).repo r).index arg = none) :
     mDel s r arg = (s.setRepo (s.repo r), { status := 404, code := "MANIFEST_UNKNOWN" }) := by
   rw [mDel_eq, h]
+theorem mDel_refused (s : State) (r arg : String) (desc : Desc)
+    (h : getDesc ((s.setRepo (s.repo r)).repo r).index arg = some desc)
+    (hc : (!isTag arg) = true ∧ onlyResponse ((s.setRepo (s.repo r)).repo r).index desc.dig = true) :
+    mDel s r arg = (s.setRepo (s.repo r), { status := 404, code := "MANIFEST_UNKNOWN" }) := by
+  rw [mDel_eq, h]; simp only []; rw [if_pos hc]
 theorem mDel_some (s : State) (r arg : String) (desc : Desc)
-    (h : getDesc ((s.setRepo (s.repo r)).repo r).index arg = some desc) :
+    (h : getDesc ((s.setRepo (s.repo r)).repo r).index arg = some desc)
+    (hc : ¬ ((!isTag arg) = true ∧ onlyResponse ((s.setRepo (s.repo r)).repo r).index desc.dig = true)) :
     mDel s r arg = (indexRemove (delStage (s.setRepo (s.repo r)) r arg desc) r desc, { status := 202 }) := by
-  rw [mDel_eq, h]
+  rw [mDel_eq, h]; simp only []; rw [if_neg hc]
+
+/-- a response entry and an entry that is not a response entry share the digest `g` (a client pushed a manifest
+    byte-identical to a referrers response document) -/
+def Twinned (ix : Index) (g : String) : Prop :=
+  ∃ e1 ∈ ix.manifests, ∃ e2 ∈ ix.manifests, Sub e1 ∧ ¬ Sub e2 ∧ e1.dig = g ∧ e2.dig = g
+
+/-- a digest carried by a response entry and by no other kind of entry is refused by the delete handler -/
+theorem onlyResponse_of_sub (ix : Index) (g : String) (hnt : ¬ Twinned ix g) (e : Desc) (he : e ∈ ix.manifests)
+    (hsub : Sub e) (hed : e.dig = g) : onlyResponse ix g = true := by
+  unfold onlyResponse
+  simp only [Bool.decide_and, Bool.and_eq_true, Bool.not_eq_true', List.isEmpty_eq_false_iff, ne_eq,
+    List.all_eq_true, List.mem_filter, decide_eq_true_eq, decide_not, Bool.not_eq_eq_eq_not, Bool.not_true,
+    decide_eq_false_iff_not, and_imp]
+  constructor
+  · intro hnil
+    have : e ∈ ix.manifests.filter (fun x => decide (x.dig = g)) := List.mem_filter.mpr ⟨he, by simpa using hed⟩
+    rw [hnil] at this; cases this
+  · intro x hx hxg
+    apply Classical.byContradiction
+    intro hns
+    apply hnt
+    refine ⟨e, he, x, hx, hsub, ?_, hed, hxg⟩
+    intro hsx
+    exact hns ⟨hsx.1, hsx.2⟩
 
 /-- a manifest delete in `r` -/
 theorem mDel_r {s : State} {G : Spec} (hK : RK T r s) (hJ : RJ r s G) (hN : Names T) (arg : String)
-    (hadm : isTag arg = false → ∀ d, DigArg.parse arg = .ok d → ∀ ds, d.str ≠ (respDig ds).str) :
+    (hadm : isTag arg = false → ∀ d, DigArg.parse arg = .ok d → ¬ Twinned (s.repo r).index d.str) :
     RK T r (mDel s r arg).1 ∧ RJ r (mDel s r arg).1 (specStep r G (.mDel r arg) (mDel s r arg).2) := by
   obtain ⟨hK0, hJ0⟩ := touch_keeps hK hJ hN
+  have hadm0 : isTag arg = false → ∀ d, DigArg.parse arg = .ok d →
+      ¬ Twinned ((s.setRepo (s.repo r)).repo r).index d.str := by
+    rw [repo_touch]; exact hadm
   cases hg : getDesc ((s.setRepo (s.repo r)).repo r).index arg with
   | none =>
     rw [mDel_none s r arg hg]
     rw [specStep_mDel_no r G r arg _ (by intro ⟨_, h, _⟩; cases h)]
     exact ⟨hK0, hJ0⟩
   | some desc =>
-    rw [mDel_some s r arg desc hg]
-    generalize s.setRepo (s.repo r) = s0 at hK0 hJ0 hg ⊢
+    by_cases hc : (!isTag arg) = true ∧ onlyResponse ((s.setRepo (s.repo r)).repo r).index desc.dig = true
+    · -- the digest names a referrers response only: refused, nothing changes
+      rw [mDel_refused s r arg desc hg hc]
+      rw [specStep_mDel_no r G r arg _ (by intro ⟨_, h, _⟩; cases h)]
+      exact ⟨hK0, hJ0⟩
+    rw [mDel_some s r arg desc hg hc]
+    generalize s.setRepo (s.repo r) = s0 at hK0 hJ0 hg hc hadm0 ⊢
     cases ht : isTag arg with
     | true =>
       rw [specStep_mDel_no r G r arg _ (by intro ⟨_, _, h⟩; rw [ht] at h; cases h)]
       obtain ⟨hK', hm, hl⟩ := mDel_tag_lists hK0 hN arg desc ht hg
-      exact ⟨hK', hJ0.same hK0.cas hK'.cas hm.blob (fun c _ => body_of_defs hm.defs c) hl⟩
+      exact ⟨hK', hJ0.same_defs hK0.cas hK'.cas hm.blob hm.defs hl⟩
     | false =>
       obtain ⟨d, hp, hdesc, hnil⟩ := getDesc_dig _ _ _ ht hg
       rw [specStep_mDel_yes r G arg _ d rfl ht hp]
-      have hfree : ∀ ds, desc.dig ≠ (respDig ds).str := by
-        intro ds; rw [hdesc]; exact hadm ht d hp ds
-      obtain ⟨hK', hm, hl⟩ := mDel_dig_lists hK0 hN arg desc ht hnil hfree
+      have honly0 : onlyResponse (s0.repo r).index desc.dig ≠ true := by
+        intro h; exact hc ⟨by rw [ht]; rfl, h⟩
+      have hfree : ∀ e ∈ (s0.repo r).index.manifests, Sub e → e.dig ≠ desc.dig := by
+        intro e he hsub hed
+        apply honly0
+        exact onlyResponse_of_sub _ _ (by rw [hdesc]; exact hadm0 ht d hp) e he hsub hed
+      have hnew : subjRead s0 r desc.dig ≠ "" → ∀ ds, (∀ x ∈ ds, T x) → desc.dig ≠ (respDig ds).str := by
+        intro hsb ds hT heq
+        apply hsb
+        unfold subjRead
+        rw [heq, hN.rt ds hT]
+        simp only []
+        cases hb : (s0.repo r).blob (respDig ds) with
+        | none => rfl
+        | some c =>
+          simp only []
+          rw [← cas_blob _ hK0.cas _ _ hb]
+          exact hJ0.nodef ds
+      obtain ⟨hK', hm, hl⟩ := mDel_dig_lists hK0 hN arg desc ht hnil hfree hnew
       generalize indexRemove (delStage s0 r arg desc) r desc = s' at hK' hm hl ⊢
       rw [hdesc] at hl
       have hg0 : d.str ≠ "" := Dig.str_ne_empty d
@@ -1022,7 +1099,8 @@ theorem mDel_r {s : State} {G : Spec} (hK : RK T r s) (hJ : RJ r s G) (hN : Name
         have := hJ0.sound S hS x hx
         rw [hxd] at this
         exact hne this.symm
-      refine ⟨hK', fun S hS => ?_, fun S hS x hx => ?_, fun S hS g => ?_⟩
+      refine ⟨hK', fun S hS => ?_, fun S hS x hx => ?_, fun S hS g => ?_,
+        fun ds => by rw [body_of_defs hm.defs]; exact hJ0.nodef ds⟩
       · by_cases hSS : S = subjRead s0 r d.str
         · rcases (hl S hS).2 hSS with h | ⟨h, _⟩
           · rw [h]; exact rmFrom_nodup _ _ hg0 (hJ0.nodup S hS)
@@ -1060,13 +1138,18 @@ variable {T : Desc → Prop} {r : String}
     * no blob delete is addressed to `r`;
     * if a manifest push (into any repository) is accepted, its referrer descriptor is in `T`; a push into `r`
       moreover has a digest whose string parses back;
-    * a manifest delete by digest in `r` does not name the digest of a referrers response document -/
+    * a manifest delete by digest in `r` does not name a digest that a response entry and an entry of another kind
+      share (`Twinned`: a client pushed a manifest byte-identical to a response document; a digest that only
+      response entries carry is refused by the handler itself);
+    * no body with a subject is defined under the canonical name of a response document (a response document has no
+      subject field, so its bytes cannot be such a body) -/
 def Adm (T : Desc → Prop) (r : String) (s : State) : Ev → Prop
   | .req (.bDel r0 _) => r0 ≠ r
   | .req (.mPut r0 ref ct qd b lk) =>
       ∀ a, mValidate (s.setRepo (s.repo r0)) r0 ref ct qd b lk = .ok a → T a.refd ∧ (r0 = r → DigRT a.d)
   | .req (.mDel r0 ref) =>
-      r0 = r → isTag ref = false → ∀ d, DigArg.parse ref = .ok d → ∀ ds, d.str ≠ (respDig ds).str
+      r0 = r → isTag ref = false → ∀ d, DigArg.parse ref = .ok d → ¬ Twinned (s.repo r).index d.str
+  | .defBody n b => ∀ ds, n = respName ds → subjOf b = ""
   | _ => True
 
 def AdmHist (T : Desc → Prop) (r : String) : State → List Ev → Prop
@@ -1104,7 +1187,21 @@ theorem stepEv_keeps {s : State} {G : Spec} (hK : RK T r s) (hJ : RJ r s G) (hN 
   cases e with
   | defBody n b =>
     have hK' : RK T r (stepEv s (.defBody n b)) := ⟨hK.inv, hK.ref, hK.table, hK.noTagSubj, hK.subjFun, hK.reg⟩
-    exact ⟨hK', hJ.same hK.cas hK'.cas (fun _ h => h) (fun c hc => body_append s n b c hc) (fun _ _ => rfl)⟩
+    refine ⟨hK', hJ.same hK.cas hK'.cas (fun _ h => h) (fun c hc => body_append s n b c hc) (fun _ _ => rfl) ?_⟩
+    intro ds
+    show subjOf (({ s with defs := s.defs ++ [(n, b)] } : State).body (respName ds)) = ""
+    have hold := hJ.nodef ds
+    unfold State.body at hold ⊢
+    simp only [List.find?_append]
+    cases hf : s.defs.find? (fun x => x.1 = respName ds) with
+    | some p => rw [hf] at hold; simpa using hold
+    | none =>
+      simp only [Option.none_or, List.find?_cons, List.find?_nil]
+      by_cases hn : n = respName ds
+      · simp only [hn, decide_true, Option.map_some, Option.getD_some]
+        exact hadm ds hn
+      · simp only [hn, decide_false, Option.map_none, Option.getD_none]
+        exact subjOf_default
   | req q =>
     have hinv := step_inv s q hK.inv
     cases q with
@@ -1180,7 +1277,8 @@ theorem respList_init (conf : Conf) (r S : String) : respList ({ conf := conf } 
 
 theorem RJ.init (conf : Conf) : RJ r { conf := conf } (fun _ _ => False) := by
   have h : ∀ S, respList ({ conf := conf } : State) r S = [] := fun S => respList_init conf r S
-  refine ⟨fun S _ => by rw [h S]; simp, fun S _ x hx => by rw [h S] at hx; simp at hx, fun S _ g => by rw [h S]; simp⟩
+  refine ⟨fun S _ => by rw [h S]; simp, fun S _ x hx => by rw [h S] at hx; simp at hx, fun S _ g => by rw [h S]; simp,
+    fun ds => by simp [State.body, subjOf_default]⟩
 
 /-- C07 over histories (partial): after every admissible history from the empty registry with the referrers API on,
     for every subject `S` the digests listed in the response registered for `S` in `r` are exactly those the
@@ -1219,9 +1317,10 @@ theorem refok_push {s : State} {G : Spec} (h : RefOK T r s G) (hN : Names T) (re
     RefOK T r (mPut s r ref ct qd b lk).1 (specStep r G (.mPut r ref ct qd b lk) (mPut s r ref ct qd b lk).2) :=
   mPut_r h.1 h.2 hN ref ct qd b lk hadm
 
-/-- preserved by a manifest delete in `r`, by tag or by digest, unless the digest is that of a response document -/
+/-- preserved by a manifest delete in `r`, by tag or by digest (a digest that only response entries carry is refused
+    by the handler), unless a response entry and an entry of another kind share the digest -/
 theorem refok_delete {s : State} {G : Spec} (h : RefOK T r s G) (hN : Names T) (arg : String)
-    (hadm : isTag arg = false → ∀ d, DigArg.parse arg = .ok d → ∀ ds, d.str ≠ (respDig ds).str) :
+    (hadm : isTag arg = false → ∀ d, DigArg.parse arg = .ok d → ¬ Twinned (s.repo r).index d.str) :
     RefOK T r (mDel s r arg).1 (specStep r G (.mDel r arg) (mDel s r arg).2) :=
   mDel_r h.1 h.2 hN arg hadm
 
@@ -1236,7 +1335,7 @@ theorem refok_delete_tag {s : State} {G : Spec} (h : RefOK T r s G) (hN : Names 
   cases hg : getDesc ((s.setRepo (s.repo r)).repo r).index arg with
   | none => rw [mDel_none s r arg hg]; exact hl0
   | some desc =>
-    rw [mDel_some s r arg desc hg]
+    rw [mDel_some s r arg desc hg (fun hc => by rw [ht] at hc; cases hc.1)]
     exact ((mDel_tag_lists hK0 hN arg desc ht hg).2.2 S hS).trans hl0
 
 /-- preserved by any request addressed to another repository (pushes there must still stay within `T`) -/
